@@ -4,6 +4,7 @@ import ast
 from ..model import (AnalysisError, FUNC_TYPES, U, call_attr, call_name, dotted, enclosing, enclosing_function, guard_texts, guards_ex,
                      short, walk_body, walk_local, ancestors, parent, const_str, kwarg, literal)
 from ..util import params, find_calls, assigns_to, trace, stmt_of, has_exit, syn_dominates, lexically_before
+from .. import feat
 from ..absint import Interp, State, Unsupported, T, F, UNK, unroll_literal_loops
 
 CFG = "insights.client.config"
@@ -112,6 +113,54 @@ def r3_unknown_filtered(cx):
             cx.require(f is not None and f.name == "_update_dict", n, "self.__dict__.update occurs only in _update_dict", construct="in %s" % getattr(f, "name", "?"))
 
 
+def r4b_env_names(cx):
+    """The environment layer addresses option <name> as INSIGHTS_<NAME>.  The expression that turns a variable name back into the option name is
+    folded, as a constant expression, for the variable of every declared option (in upper, lower and mixed case): it must give that option's name."""
+    cx.rule("C16.R4b", "INSIGHTS_<NAME> maps to option <name> for every declared option", floor=60)
+    m = cx.repo.module(CFG)
+    env = m.func("InsightsConfig._load_env", "C16.R4b")
+    do = m.top.get("DEFAULT_OPTS")
+    names = [k.value for k in do.keys if isinstance(k, ast.Constant) and isinstance(k.value, str)] if isinstance(do, ast.Dict) else []
+    if len(names) < 60:
+        cx.unknown(env, "DEFAULT_OPTS is not a literal table")
+        return
+    key_expr, kvar = None, None
+    for n in ast.walk(env):
+        gens = None
+        if isinstance(n, (ast.GeneratorExp, ast.ListComp)) and isinstance(n.elt, ast.Tuple) and len(n.elt.elts) == 2:
+            gens, ke = n.generators, n.elt.elts[0]
+        elif isinstance(n, ast.DictComp):
+            gens, ke = n.generators, n.key
+        if gens and len(gens) == 1 and "os.environ" in U(gens[0].iter):
+            t = gens[0].target
+            kvar = t.elts[0].id if isinstance(t, ast.Tuple) and isinstance(t.elts[0], ast.Name) else t.id if isinstance(t, ast.Name) else None
+            key_expr = ke
+            break
+    if key_expr is None:
+        for lp in [x for x in ast.walk(env) if isinstance(x, ast.For) and "os.environ" in U(x.iter)]:
+            t = lp.target
+            kvar = t.elts[0].id if isinstance(t, ast.Tuple) and isinstance(t.elts[0], ast.Name) else t.id if isinstance(t, ast.Name) else None
+            for a in walk_body(lp.body):
+                if isinstance(a, ast.Assign) and isinstance(a.targets[0], ast.Subscript) and not isinstance(a.targets[0].slice, ast.Constant):
+                    key_expr = trace(a.targets[0].slice, env) if isinstance(a.targets[0].slice, ast.Name) else a.targets[0].slice
+                    break
+            if key_expr is not None:
+                break
+    if key_expr is None or kvar is None:
+        cx.unknown(env, "the expression deriving the option name from the environment variable name was not found")
+        return
+    for nm in names:
+        got = {}
+        try:
+            for var in ("INSIGHTS_" + nm.upper(), "insights_" + nm, "Insights_" + nm.upper()):
+                got[var] = feat.fold_str_expr(key_expr, {kvar: var})
+        except feat.NotConstant as e:
+            cx.unknown(key_expr, "option-name expression is not a foldable string expression: %s" % e)
+            return
+        wrong = dict((k, v) for k, v in got.items() if v != nm)
+        cx.require(not wrong, key_expr, "INSIGHTS_%s sets option '%s'" % (nm.upper(), nm), construct="%s with %s" % (short(key_expr, 70), "; ".join("%s -> %r" % kv for kv in sorted(wrong.items())) if wrong else "%s=INSIGHTS_%s -> %r" % (kvar, nm.upper(), nm)))
+
+
 def r4_coercion(cx):
     cx.rule("C16.R4", "numeric and boolean coercion agree between the environment and the file loader; every option has a default", floor=4)
     m = cx.repo.module(CFG)
@@ -216,6 +265,10 @@ def obligations():
     obs.append(("output_dir and output_file => rejected", {"output_dir": T, "output_file": T}, ("rejected",)))
     obs.append(("obfuscate_hostname without obfuscate => rejected", {"obfuscate_hostname": T, "obfuscate": F}, ("rejected",)))
     obs.append(("obfuscate_hostname accepted => obfuscate", {"obfuscate_hostname": T}, ("holds", "obfuscate", T)))
+    # the implications are about the FINAL configuration: an option that is only switched on inside _imply_options (after its own
+    # consequences were drawn) must still have them
+    for a, c, v in (("offline", "no_upload", T), ("offline", "register", F), ("offline", "auto_update", F), ("output_dir", "no_upload", T), ("output_file", "no_upload", T)):
+        obs.append(("%s switched on by an implication => %s%s" % (a, "" if v == T else "not ", c), {a: F}, ("late", c, v, a)))
     obs.append(("enable_schedule and disable_schedule => rejected", {"enable_schedule": T, "disable_schedule": T}, ("rejected",)))
     obs.append(("payload without content_type => rejected", {"payload": T, "content_type": F, "app": F, "compliance": F, "compliance_policies": F, "compliance_assign": F, "compliance_unassign": F}, ("rejected",)))
     return obs
@@ -299,9 +352,9 @@ def r5_implication_table(cx):
             return
     peak = 0
     for title, assume, want in obligations():
-        seed = set(assume) | (set([want[1]]) if want[0] == "holds" else set())
+        seed = set(assume) | (set([want[1]]) if want[0] in ("holds", "late") else set())
         rel = cone_of_influence(cls, ["_imply_options", "_validate_options"], seed)
-        final_live = set([want[1]]) if want[0] == "holds" else set()
+        final_live = set([want[1]]) if want[0] == "holds" else set([want[1], want[3]]) if want[0] == "late" else set()
 
         def interpret(assumption):
             it = Interp(cls, relevant=rel)
@@ -317,6 +370,20 @@ def r5_implication_table(cx):
         peak = max(peak, it.peak)
         done = [s for s in states if s.status == "running"]
         rej = [s for s in states if s.status == "rejected"]
+        if want[0] == "late":
+            # accepted paths on which the antecedent ends up truthy (or unknown) although it started falsy
+            node = m.func("InsightsConfig._imply_options")
+            _, attr, val, ante = want
+            on = [s for s in done if s.attrs.get(ante, UNK) != F]
+            bad = [s for s in on if s.attrs.get(attr, UNK) != val]
+            if bad:
+                s = bad[0]
+                cx.bad(node, "%s: '%s' is switched on after its implications were drawn, and '%s' is not %s on that path" % (title, ante, attr, "truthy" if val == T else "falsy"),
+                       construct="assume %s -> %s=%s, %s=%s" % (_fmt(assume), ante, s.attrs.get(ante, UNK), attr, s.attrs.get(attr, UNK)), path="decisions: " + "; ".join(s.trace[-14:]))
+            else:
+                cx.ok(node, "%s: on %d accepted paths '%s' is never switched on late (or its consequence holds)" % (title, len(done), ante),
+                      construct="assume %s -> %d accepted paths, %d with %s on" % (_fmt(assume), len(done), len(on), ante))
+            continue
         if want[0] == "holds" and any(s.attrs.get(want[1], UNK) == UNK for s in done):
             # the value still depends on unassumed options: decide by case split over the cone of influence
             free = sorted(a for a in rel if a not in assume)
@@ -389,5 +456,6 @@ def run(cx):
     cx.guard(r2_cli_suppress)
     cx.guard(r3_unknown_filtered)
     cx.guard(r4_coercion)
+    cx.guard(r4b_env_names)
     cx.guard(r5_implication_table)
     cx.guard(r6_constructor)
